@@ -125,7 +125,12 @@ def gen_case(rng, n):
         text = rng.pick(['ValueError: unexpected entity &nbsp; after &lt;td&gt;', 'error: &amp; is not allowed here', 'AttributeError: &#38; &#x27; &#60;vx7q11&#62;',
                          'TemplateSyntaxError: expected token &gt; got &quot;', 'note &copy; 2024 &mdash; reload failed', 'ImportError: No module named caf\\xe9',
                          'KeyError: %3Cvx7q12%3E %26amp%3B', 'OSError: [Errno 2] \\u003cvx7q13\\u003e', 'SyntaxError: invalid character &#x2028; in identifier',
-                         'RuntimeError: &lt;vx7q14 a=1&gt;x&lt;/vx7q14&gt;', 'reloader: watching 3 files &hellip; &#8230; &lt;', 'E: &amp;amp;lt; twice &amp;lt;'])
+                         'RuntimeError: &lt;vx7q14 a=1&gt;x&lt;/vx7q14&gt;', 'reloader: watching 3 files &hellip; &#8230; &lt;', 'E: &amp;amp;lt; twice &amp;lt;',
+                         # text that looks like credentials, tokens, addresses: the page is for the developer at the console - it shows
+                         # the text it was given
+                         "ValueError: bad settings line: token = abc123", "OperationalError: connect('postgres://app:hunter2@db:5432/x', password='hunter2') failed",
+                         'KeyError: api_key=sk-12345 secret=s3cr3t', 'ConfigError: PASSWORD: swordfish; user: admin', 'error: Authorization: Bearer eyJhbGciOi.e30.x',
+                         'OSError: cannot read /home/alice/.ssh/id_rsa (uid=1000)', 'note: contact ops@example.com or 10.0.0.7:8080'])
         if rng.chance(0.3):
             text = text + rng.pick(['\n', '\n\n', ' '])
     elif kind == 'random':
